@@ -365,7 +365,7 @@ def compile_ilp32(work, name, sources):
     srcs = [s for s in sources if os.path.basename(s) != 'platform_native.c'] + [os.path.join(VERIF, 'mon', 'platform_ilp32.c')]
     rc, so, se = run(['gcc', '-print-file-name=include'])
     gi = so.strip()
-    flags = ['-m32', '-O2', '-ffreestanding', '-fno-pic', '-fno-stack-protector', '-nostdinc', '-isystem', gi,
+    flags = ['-m32', '-DVP_ILP32', '-O2', '-ffreestanding', '-fno-pic', '-fno-stack-protector', '-nostdinc', '-isystem', gi,
              '-isystem', os.path.join(VERIF, 'tools', 'stubs')]
     return compile_many(work, name, srcs, flags, link_flags=['-m32', '-nostdlib', '-static', '-no-pie'])
 
